@@ -1101,6 +1101,9 @@ static void runConfig(const Config &cfg, const vector<Payload> &cat, bool fullCa
 // configurations "transfer+…" above): SI offer -> <open/> -> three <data/> -> <close/> -> a late <data/> -> an <open/> for
 // an unknown session, for every decision (accept writable / accept unwritable / abort), taken in the slot or after it
 // returned, and every receiving device (good / fails on the 2nd block / takes half of the 2nd block).
+// The abort scenarios are the witness of the crash repaired by repo commit 31a1bb4 (declined job re-opened by the peer's
+// <open/>, next <data/> wrote to a null device): kept, key C08:transfer-seq:abort:crash — they must run through with
+// exactly one reply per request.
 static void runTransferSequences()
 {
     struct Step { const char *name; string id; string xml; };
